@@ -47,9 +47,23 @@ def main():
   if a.replay:
     return mod.replay(json.load(open(a.replay)))
   ctx = vcore.Ctx(a.what, a.tier, seed)
+  # watchdog: a call into the library that does not return (a solver that loops on a degenerate input) must not leave the
+  # check without a verdict
+  import signal
+
+  class CheckTimeout(Exception):
+    pass
+
+  def on_alarm(signum, frame):
+    raise CheckTimeout("no verdict after %d s: a call into the implementation under check did not return" % budget)
+  budget = int(os.environ.get('VERIF_TIMEOUT', '1500' if a.tier == 'quick' else '7200'))
+  signal.signal(signal.SIGALRM, on_alarm)
+  signal.alarm(budget)
   try:
     mod.run(ctx)
+    signal.alarm(0)
   except Exception as e:   # a crash of the machinery is a broken tie, never a pass
+    signal.alarm(0)
     traceback.print_exc()
     ctx.break_tie('correspondence', 'harness', "harness crashed: %s: %s" % (type(e).__name__, e))
   return ctx.finish()
